@@ -15,6 +15,9 @@ THEOREMS = [
     "MC.stateless_always_fresh",
     "MC.einv_validate",
     "MC.einv_trial",
+    "MC.einv_trial_exchange",
+    "MC.einv_trial_grand_pos",
+    "MC.einv_trial_grand_of",
     "MC.one_eval_per_trial",
     "MC.reject_and_log_free",
     "MC.revertCalc_fresh_pos",
